@@ -307,13 +307,20 @@ class World:
     def start(self, persistence=False):
         gateway = self.gateway
         self.persist_t0 = self.sim.now  # the save schedule counts its first 10 s from here
+        self.after_start_persistence = None  # what the tree held at the instant start_persistence() returned
         if is_async(self.flavour):
             if persistence:
-                self.acall(gateway.start_persistence())
+                async def _start_persistence():
+                    await gateway.start_persistence()
+                    # same loop iteration, nothing else has run in between: "restored" means restored NOW
+                    self.after_start_persistence = projection(gateway.sensors)
+
+                self.acall(_start_persistence())
             self.acall(gateway.start())
         else:
             if persistence:
                 gateway.start_persistence()
+                self.after_start_persistence = projection(gateway.sensors)
             gateway.start()
         self.settle()
 
